@@ -495,10 +495,21 @@ def analyse_function(prog, fn, summ, entry):
         # override: every decided key is re-assigned under a memo-reading branch
         if decided and not direct_emit:
             ok_all = True
+            # blocks reachable from the decision (an override has to come after it)
+            after = set()
+            st_ = list(succ.get(c, ()))
+            while st_:
+                x_ = st_.pop()
+                if x_ in after:
+                    continue
+                after.add(x_)
+                st_.extend(succ.get(x_, ()))
             for kk in decided:
                 ok = False
                 for k2, rhs, st, bb in fi.assigns:
-                    if k2 != kk:
+                    # record fields are shared by all operands (the analysis does not tell operands[0] from operands[1]): only a
+                    # local variable can be said to be re-decided
+                    if k2 != kk or bb not in after or kk.startswith('F:'):
                         continue
                     for (pc, ps) in cd.get(bb, ()):
                         pcn = cond_of(pc)
@@ -929,6 +940,7 @@ def memo_flags(fn, fi):
     dead = _error_dead(fn)
     cd, succ = control_deps(fn, dead)
     flags = {}
+    flagged = set()
     values = set()
     for b, bb in fn.blocks.items():
         cn = fn.nodes.get(bb.get('cond')) if 'cond' in bb else None
@@ -950,6 +962,19 @@ def memo_flags(fn, fi):
             kf = _memo_cond_k(fn, fi, cn)
             if kf:
                 flags.setdefault(kk, []).append((v, kf))
+                flagged.add(id(stn))
+    # a record field is a memo flag only when it is a two-valued flag: nothing but 0 and one constant is ever stored in it
+    # (operands[0].type = OPTYPE_X under a memo test does not make every later `type ==` test a memo test)
+    for kk in list(flags):
+        if not kk.startswith('F:'):
+            continue
+        vals = set()
+        for k2, rhs, stn, b in fi.assigns:
+            if k2 == kk:
+                vals.add(const(rhs) if rhs is not None else None)
+        vals.discard(0)
+        if None in vals or len(vals) > 1:
+            del flags[kk]
     fi.memo_flags = flags
     fi.memo_values = sorted(values) or [1]
     fi.memo = set(fi.memo0) | set(flags)
@@ -1259,10 +1284,20 @@ def pass_size(prog, table=None):
         finite = len(arms) == 2 and None not in arms
         key = (fn.file, fn.q, x['construct'])
         t = tri.get(key)
+        # a triage verdict was reached for a test that decided the record fields listed with it; a test that now decides
+        # another field as well is a different test
+        if t and t['class'] != 'inconsistent' and {k_ for k_ in x['decided'] if k_.startswith('F:')} - set(t.get('decides', [])):
+            t = None
         if t and t['class'] == 'inconsistent':
             obs.append(Ob('PASS-SIZE', fn.file, own['l'], fn.q, x['construct'], VIOLATED,
                           '`%s`: the instruction length depends on a value pass 1 may not know and no memo carries the pass-1 '
                           'choice (replayed: %s; demo %s)' % (x['text'], t['reason'][:200], t.get('demo', ''))))
+        elif any(k_.endswith(('.type', '.operand_type')) for k_ in x['decided']) and not x.get('unreached') and not (t and t['class'] in ('consistent', 'not-size')):
+            obs.append(Ob('PASS-SIZE', fn.file, own['l'], fn.q, x['construct'], VIOLATED,
+                          '`%s` is decided in pass 2 on a value that pass 1 may not know, without the pass-1 memo, and it changes the '
+                          'operand\'s addressing type (%s): the addressing type selects the encoding, so a forward reference that '
+                          'satisfies the test only in pass 2 changes the instruction length between the passes' % (
+                              x['text'], ', '.join(sorted(k_.split('.')[-1] for k_ in x['decided'])))))
         elif x.get('unreached'):
             obs.append(Ob('PASS-SIZE', fn.file, own['l'], fn.q, x['construct'], DISCHARGED, '',
                           'the test is not reached when the memo says that pass 1 did not know the value', True))
